@@ -297,7 +297,7 @@ Section Compile.
     | Some continuation =>
         let with_trailing_newline :=
           starts_with_empty_line continuation
-          || (negb is_partial && match continuation with [] => true | _ => false end) in
+          || (negb is_partial && match trim_start_blank continuation with [] => true | _ => false end) in
         if with_trailing_newline then
           match prefix_to src (tk_start t) with
           | None => CPanic (`"standalone prefix slice")
@@ -484,6 +484,10 @@ Section Compile.
     else COk c.
 
   (* common prologue of every tag: parse_expression, `{{~`, omit_pro_ws *)
+  Definition es_or_pre (e : espec) (b : bool) : espec :=
+    {| es_name := es_name e; es_params := es_params e; es_hash := es_hash e; es_bp := es_bp e;
+       es_pre := es_pre e || b; es_pro := es_pro e |}.
+
   Definition tag_prologue (fuel : nat) (c : cstate) (pr : tok) (it : list tok)
     : cres (espec * list template * list tok) :=
     do '(e, it1) <- parse_expression fuel it (tk_end pr);
@@ -524,8 +528,18 @@ Section Compile.
           | t :: r => COk (with_ts c2 (t_push_map t lc :: r), it1)
           end
       | KInvert chain =>
-          do it0 <- (if chain then do '(_, it') <- parse_name fuel it; COk it' else COk it);
-          do '(e, ts1, it1) <- tag_prologue fuel c1 pr it0;
+          (* `{{~else if ..}}`: the tilde precedes the `else` item that parse_name consumes *)
+          let '(chain_pre, ita) :=
+            if chain then
+              match it with
+              | t0 :: it0 => if is_rule R_leading_tilde_to_omit_whitespace t0 then (true, it0) else (false, it)
+              | [] => (false, it)
+              end
+            else (false, it) in
+          do it0 <- (if chain then do '(_, it') <- parse_name fuel ita; COk it' else COk ita);
+          do '(e0, it1) <- parse_expression fuel it0 (tk_end pr);
+          let e := es_or_pre e0 chain_pre in
+          do ts1 <- (if es_pre e then remove_previous_whitespace (c_ts c1) else COk (c_ts c1));
           do '(trim, ts2) <- process_standalone_statement ts1 pr true (o_is_partial opts);
           let ibw := trim && negb (es_pre e) in
           match ts2 with
@@ -542,15 +556,19 @@ Section Compile.
               end
           end
       | KRawBlockText =>
-          do txt <- span_str pr (`"raw_block_text span");
-          do el <- raw_string txt (Some (pr, inner_escapes pr)) (c_omit c1) (c_trim c1);
-          COk (with_ts c1 (t_push t_empty el lc :: c_ts c1), it)
+          let start := if negb (N.eqb (tk_start pr) prev_end) then prev_end else tk_start pr in
+          match slice src start (tk_end pr) with
+          | None => CPanic (`"raw_block_text slice")
+          | Some txt =>
+              do el <- raw_string txt (Some (pr, inner_escapes pr)) (c_omit c1) (c_trim c1);
+              COk (with_ts c1 (t_push t_empty el lc :: c_ts c1), it)
+          end
       | KValueExpr html =>
           do '(e, ts1, it1) <- tag_prologue fuel c1 pr it;
           let h := mk_helper e false false false in
           let el := if html then ElHtml h else ElExpr h in
           do ts2 <- push_front_el ts1 el lc (`"expression front");
-          COk (set_stack c1 ts2 (es_pro e) (c_trim c1), it1)
+          COk (set_stack c1 ts2 (es_pro e) false, it1)
       | KDecoExpr is_partial_exp =>
           do '(e, ts1, it1) <- tag_prologue fuel c1 pr it;
           let prevent_indent := negb (is_partial_exp && o_prevent_indent opts) in
@@ -614,7 +632,7 @@ Section Compile.
             if compact then trim_matches_both (`"{{!") (`"}}") txt
             else trim_matches_both (`"{{!--") (`"--}}") txt in
           do ts2 <- push_front_el ts1 (ElComment body) lc (`"comment front");
-          COk (set_stack c1 ts2 (c_omit c1) trim, it)
+          COk (set_stack c1 ts2 false trim, it)
       | KOtherRule => COk (c1, it)
       end;
     let '(c', it') := r in
